@@ -344,6 +344,34 @@ def memo_on_mutable(ctx, rule: str, modules: list[str]) -> int:
                              f"{settable[reads[0].attr].name}: after the field is reassigned the memo still answers for the old value", fn)
                 else:
                     ctx.ok(rule, f"{c.qualname}.{name}", "memo reads no reassignable field directly")
+        # a memoised function (or method) that hands out a newly built MUTABLE object: every caller gets the same object, so a change
+        # made through one of them shows in all
+        from .model import Class
+        for fn in [x for x in ast.walk(m.tree) if isinstance(x, (ast.FunctionDef, ast.AsyncFunctionDef))]:
+            decos = {u(d.func if isinstance(d, ast.Call) else d).split(".")[-1] for d in fn.decorator_list}
+            if not decos & (MEMO_DECORATORS | {"cache", "lru_cache"}) or decos & {"property", "cached_property"}:
+                continue
+            n += 1
+            shared = None
+            for r in [x for x in ast.walk(fn) if isinstance(x, ast.Return) and x.value is not None]:
+                v = r.value
+                if isinstance(v, (ast.List, ast.Dict, ast.Set, ast.ListComp, ast.DictComp, ast.SetComp)):
+                    shared = (r, "a new container")
+                elif isinstance(v, ast.Call):
+                    try:
+                        k = m.resolve(v.func) if isinstance(v.func, (ast.Name, ast.Attribute)) else None
+                    except Exception:
+                        k = None
+                    if isinstance(k, Class) and k.is_dataclass and not any(b_.dataclass_kwargs.get("frozen") for b_ in k.mro if b_.is_dataclass):
+                        shared = (r, f"a new {k.name} (a dataclass whose fields can be reassigned)")
+                    elif isinstance(v.func, ast.Name) and v.func.id in ("list", "dict", "set", "bytearray"):
+                        shared = (r, "a new container")
+            if shared is not None:
+                ctx.fail(rule, f"{mn}.{fn.name}: memoised constructor of a mutable object", m.path, shared[0].lineno,
+                         f"`{fn.name}` is memoised and returns {shared[1]}: all callers share ONE object, so changing it through one holder changes it for "
+                         "every other holder (and for every later call)", fn)
+            else:
+                ctx.ok(rule, f"{mn}.{fn.name}", "memoised function hands out no new mutable object")
     return n
 
 
@@ -396,7 +424,7 @@ ANCHORS: dict[str, dict[str, set | None]] = {
             "hugr.utils": {"ser_it", "deser_it"}},
     "C06": {"hugr.ops": {"outer_signature", "inner_signature", "num_out", "port_kind", "port_type", "nth_inputs", "nth_outputs", "_function_port_offset", "_inputs",
                          "cached_signature", "_sig_port_type", "signature"}, "hugr.tys": {"flip"}},
-    "C07": {"hugr.tys": {"type_bound", "_to_opaque", "__init__"}, "hugr._serialization.tys": {"join"}, "hugr.std.collections.array": ALL, "hugr.std.collections.list": ALL,
+    "C07": {"hugr.tys": {"type_bound", "_to_opaque", "__init__"}, "hugr._serialization.tys": {"join"}, "hugr._serialization.extension": {"deserialize"}, "hugr.ext": {"bound"}, "hugr.std.collections.array": ALL, "hugr.std.collections.list": ALL,
             "hugr.std.collections.static_array": ALL},
     "C08": {"hugr.hugr.base": {"insert_hugr"}, "hugr.build.dfg": {"_insert_nested_impl", "insert_nested", "insert_cfg", "insert_conditional", "insert_tail_loop"}},
     "C09": {"hugr.envelope": ALL, "hugr.package": {"from_bytes", "from_str", "to_bytes", "to_str", "_to_serial"}},
